@@ -269,6 +269,11 @@ def process_obligations(ctx, timeout_ms):
             # by an arbitrary integer): the failure may be an artefact of the approximation - undecided, not a violation
             ctx.undecide(o.name, 'obligation fails only through an over-approximated bit operation on two symbolic values (model %s)' % json.dumps(o.model, default=str)[:200])
             continue
+        if info is None and o.meta.get('unrecognised'):
+            # the goal is false only because the executor did not recognise the shape of what the code built (a tool limit),
+            # and the replay found no failing input on the real code: undecided, not a violation
+            ctx.undecide(o.name, 'the structure the code builds here is not recognised by the contract harness and the replay found no failing input')
+            continue
         if info is None:
             ctx.violation(o.name, o.meta.get('key', 'no-input'), o.meta.get('what', 'obligation failed: ' + o.name),
                           {'obligation': o.name, 'model': o.model, 'smt2': o.smt2()[:20000],
